@@ -64,7 +64,7 @@ def new_labels(rng, old, kind, mode):
 def gen_case(rng):
     if rng.random() < 0.2:
         # reindex_like
-        sp = gen.spec(rng, mindim=1, maxdim=3, dtype=rng.choice('fi'))
+        sp = gen.spec(rng, mindim=1, maxdim=3, dtype=rng.choice('fi'), narrow=True)
         tdims = []
         tlabs, tk = [], []
         for d, l, k in zip(sp["dims"], sp["labels"], sp["kinds"]):
@@ -82,7 +82,7 @@ def gen_case(rng):
         t = {"dims": [tdims[i] for i in order], "labels": [tlabs[i] for i in order], "kinds": [tk[i] for i in order]}
         t["values"] = np.zeros(tuple(len(l) for l in t["labels"]))
         return {"mode": "like", "a": sp, "template": t, "as_axes": rng.random() < 0.3}
-    sp = gen.spec(rng, mindim=1, maxdim=4, dtype=rng.choice('ffi'))
+    sp = gen.spec(rng, mindim=1, maxdim=4, dtype=rng.choice('ffi'), narrow=True)
     k = rng.randrange(len(sp["dims"]))
     kind = sp["kinds"][k]
     method = rng.choice([None, None, None, 'left', 'right']) if kind in 'if' else None
